@@ -62,6 +62,9 @@ def gen_case(rng, tier, index):
     w["getitem"] = 6
     w["clear"] = 0.2
     w["clone"] = 0.4
+    w["partial_view"] = 0.6
+    w["fork_check"] = 0.15
+    w["shallow_copy"] = 0.3
     exact = index % 3 == 0
     if exact:
         for o in ("values", "items", "eq_dict", "ne_dict", "popitem", "setdefault", "contains", "get", "clear"):
@@ -248,6 +251,40 @@ def run_special(case, res, cls, lfu):
     res.seen(("special", what, n))
 
 
+def fork_check(obj, expect_list, probe, want_probe, what):
+    """The history goes on in a forked child for a moment: the child sees the object as the parent left it (same listing,
+    same answer to one lookup). Returns None or a description of what the child saw."""
+    import os
+    r, w = os.pipe()
+    pid = os.fork()
+    if pid == 0:
+        msg = b""
+        try:
+            os.close(r)
+            got = (outcome(lambda: list(obj)), outcome(probe))
+            if got != (("ok", expect_list), want_probe):
+                msg = repr(got).encode()[:600]
+        except BaseException as e:
+            msg = ("child raised " + repr(e)).encode()[:600]
+        finally:
+            try:
+                os.write(w, msg)
+            finally:
+                os._exit(0)
+    os.close(w)
+    data = b""
+    while True:
+        chunk = os.read(r, 4096)
+        if not chunk:
+            break
+        data += chunk
+    os.close(r)
+    os.waitpid(pid, 0)
+    if data:
+        return f"{what}: a forked child sees (listing, lookup) -> {data.decode(errors='replace')}; the parent has {expect_list!r} / {want_probe}"
+    return None
+
+
 def run_case(case, res):
     from windpyutils.structures.caches import LFUCache
     if case.get("special"):
@@ -391,6 +428,48 @@ def run_case(case, res):
                         mech = "store-present-key-keeps-old-value"
                     raise Violation(mech, f"popitem() -> {got}, not a (key, value) pair of {m.val!r}", {})
                 m.drop(got[1][0])
+        elif op == "partial_view" and n:
+            # a view iterator that is abandoned part-way (next(iter(c.values())), any(...) that stops early): whatever it counts
+            # as uses, the cache stays consistent
+            which = ["keys", "values", "items"][aux % 3]
+            take = 1 + aux % max(1, n)
+            got = _guard(f"first {take} of {which}()", n, lambda: list(__import__("itertools").islice(getattr(c, which)(), take)))
+            if got[0] != "ok" or len(got[1]) != min(take, n):
+                raise Violation("operation-raised", f"taking the first {take} of {which}() of {n} entries -> {got}", {})
+            if which != "keys":
+                for kk in m.val:
+                    m.use(kk, exact=False)
+            desc = f"first {take} of {which}()"
+        elif op == "fork_check" and n <= 40:
+            kk = next(iter(m.val), k)
+            order_now = _guard("list(cache)", n, lambda: list(c))
+            bad = fork_check(c, order_now[1], (lambda: kk in c), ("ok", kk in m.val), "LFUCache")
+            if bad:
+                raise Violation("fork-view", bad, {})
+            res.count("histories_looked_at_from_a_forked_child")
+        elif op == "shallow_copy" and 1 <= n <= 40 and k in m.val:
+            # copy.copy of the cache, then a store of a present key through the copy: the original either follows completely (the
+            # copy is an alias) or not at all (an independent copy) - never half
+            import copy
+            c2 = copy.copy(c)
+            v2 = ("through-the-copy", step)
+            got = _guard("store through a copy.copy of the cache", n, lambda: c2.__setitem__(k, v2))
+            if got[0] != "ok":
+                raise Violation("operation-raised", f"store through copy.copy of the cache raised {got[1]}", {})
+            now = _guard("lookup", n, lambda: c[k])
+            if now == ("ok", v2):
+                m.prev_val[k] = m.val[k]
+                m.val[k] = v2
+                m.use(k)
+                m.use(k)                # the store through the alias and the lookup just made
+                res.count("shallow_copies_that_are_aliases")
+            elif now == ("ok", m.val[k]):
+                m.use(k)                # the lookup just made
+                res.count("shallow_copies_that_are_independent")
+            else:
+                raise Violation("lookup-value", f"after a store of {k!r} through copy.copy of the cache the original answers {now}; it held "
+                                f"{m.val[k]!r}, the copy was given {v2!r}", {})
+            desc = f"store {k!r} through a copy.copy"
         elif op == "clone":
             # the caller goes on with a copy of the cache (copy.deepcopy / a pickle round trip, e.g. a cache handed to
             # another process): the copy is a cache with the same content, recency / use counts included
